@@ -156,7 +156,7 @@ def coq_build(ctx):
                            capture_output=True, text=True)
         if r.returncode != 0:
             res["untranslatable"] = (r.stdout + r.stderr).strip()[-600:]
-        env = dict(os.environ, COQ_JOBS=str(NPROC), COQ_TIMEOUT="1500")
+        env = dict(os.environ, COQ_JOBS=str(NPROC), COQ_TIMEOUT="1500", VERIF_NO_REGEN="1")
         r = subprocess.run([os.path.join(VERIF, "tools", "coqbuild.sh")], capture_output=True, text=True, env=env)
         log = r.stdout + r.stderr
         res["log"] = log
